@@ -47,9 +47,7 @@ Definition predict (g : guards) (c : ccase) : oclass :=
          end
   end.
 
-(* when the depth guard of CompareDepth is absent the fuel above would hide the
-   endless recursion behind the depth value; give such a model plenty of fuel
-   instead so that it answers OutOfFuel only when the recursion really goes on *)
+(* correspondence: the model (with the guards of the code) predicts the observed class *)
 Definition model_ok (c : ccase) : bool := oclass_eqb (predict code_guards c) (c_obs c).
 Definition spec_ok (c : ccase) : bool := spec_class_ok (c_obs c).
 
